@@ -45,7 +45,7 @@ func c02Serializer(r *core.R, p *c02Pipe) {
 		coll = append(coll, c02Viol{jObj.Pos(), fmt.Sprintf("the serializer does not start collecting at slot 0 (the counter %s is not initialised to 0 once), where the reader puts the first block", jObj.Name())})
 	}
 	doPick := func(st int, ix *ast.IndexExpr) int {
-		if objOf(info, ix.Index) != jObj {
+		if c02Ref(info, ix.Index) != jObj {
 			coll = append(coll, c02Viol{ix.Pos(), fmt.Sprintf("`%s` is not indexed by the round-robin counter %s", src(r.P.Fset, ix), jObj.Name())})
 		}
 		if st&picked != 0 {
@@ -134,7 +134,7 @@ func c02Serializer(r *core.R, p *c02Pipe) {
 			}
 			if k, nn, ok := c02Step(info, ev.n, jObj); ok {
 				nSteps++
-				if k != 1 || !p.sameCount(nn, map[types.Object]bool{}) {
+				if k != 1 || !p.sameCountExpr(nn, map[types.Object]bool{}) {
 					coll = append(coll, c02Viol{ev.n.Pos(), fmt.Sprintf("`%s`: the serializer's counter is not advanced by `(%s+1) %% %s` per turn (the reader dispatches with step 1 modulo the worker count)", src(r.P.Fset, ev.n), jObj.Name(), p.nObj.Name())})
 				}
 				if st&stepped != 0 {
@@ -180,7 +180,7 @@ func c02Serializer(r *core.R, p *c02Pipe) {
 
 // c02Workers: worker k connects inputs[k] to outputs[k], and emits exactly one output pair per input pair on every path.
 func c02Workers(r *core.R, p *c02Pipe) {
-	m, info := p.m, p.info
+	m := p.m
 	g := m.goOf("worker")
 	if g == nil {
 		r.Anchor("worker goroutine")
@@ -188,113 +188,10 @@ func c02Workers(r *core.R, p *c02Pipe) {
 	}
 	wu := g.unit
 	// ---- wiring
-	c := "wiring@" + wu.name
-	// the local channels of the iteration that the worker receives from / sends on
-	var rngVars, sndVars []types.Object
-	for _, op := range p.ops {
-		if !op.u.onlyRole("worker") {
-			continue
-		}
-		switch {
-		case (op.kind == "range" || op.kind == "recv") && op.class == p.in:
-			rngVars = append(rngVars, p.localRoot(op.expr, map[types.Object]bool{}))
-		case op.kind == "send" && op.class == p.out:
-			sndVars = append(sndVars, p.localRoot(op.expr, map[types.Object]bool{}))
-		}
-	}
-	// appends to the two fields, anywhere in the package
-	type app struct {
-		f      *types.Var
-		arg    types.Object
-		inLoop bool
-		uncond bool
-		body   *ast.BlockStmt // innermost function body holding the append
-	}
-	var apps []app
-	otherWrites := 0
-	startU := m.byDecl[m.start.Obj]
-	inSpawner := map[ast.Node]bool{}
-	m.deepWalk(startU, func(s *pbfSite, n ast.Node) bool {
-		as, ok := n.(*ast.AssignStmt)
-		if !ok {
-			return true
-		}
-		for i, l := range as.Lhs {
-			f := fieldOf(info, l)
-			if f != p.inF && f != p.outF {
-				continue
-			}
-			inSpawner[as] = true
-			a := app{f: f, uncond: true, body: s.body()}
-			if len(as.Lhs) == len(as.Rhs) {
-				if call, ok := ast.Unparen(as.Rhs[i]).(*ast.CallExpr); ok && builtinName(info, call) == "append" && len(call.Args) == 2 && fieldOf(info, call.Args[0]) == f {
-					a.arg = p.localRoot(call.Args[1], map[types.Object]bool{})
-				}
-			}
-			for k, fr := range s.frames {
-				x := fr.link
-				if k == len(s.frames)-1 {
-					x = n
-				}
-				if p.spawnLoop.Pos() <= x.Pos() && x.End() <= p.spawnLoop.End() {
-					a.inLoop = true
-				}
-				if fr.deferred || !c07OnlyUnder(parentsOf(r.P, fr.u.fi), x, fr.body, p.spawnLoop) {
-					a.uncond = false
-				}
-			}
-			if a.arg == nil {
-				otherWrites++
-			} else {
-				apps = append(apps, a)
-			}
-		}
-		return true
-	})
-	for _, u := range m.sortedUnits() {
-		m.walkUnit(u, func(n ast.Node) bool {
-			if as, ok := n.(*ast.AssignStmt); ok && !inSpawner[as] {
-				for _, l := range as.Lhs {
-					if f := fieldOf(info, l); f == p.inF || f == p.outF {
-						otherWrites++
-					}
-				}
-			}
-			return true
-		})
-	}
-	var inVar, outVar types.Object
-	nIn, nOut, okApps := 0, 0, true
-	for _, a := range apps {
-		if !a.inLoop || !a.uncond || !pbfPerIteration(a.arg, p.spawnLoop, a.body, a.inLoop) {
-			okApps = false
-		}
-		if a.f == p.inF {
-			nIn++
-			inVar = a.arg
-		} else {
-			nOut++
-			outVar = a.arg
-		}
-	}
-	okRng := len(rngVars) > 0
-	for _, v := range rngVars {
-		if v == nil || v != inVar {
-			okRng = false
-		}
-	}
-	okSnd := len(sndVars) > 0
-	for _, v := range sndVars {
-		if v == nil || v != outVar {
-			okSnd = false
-		}
-	}
-	r.Check(okApps && nIn == 1 && nOut == 1 && otherWrites == 0 && okRng && okSnd, c, g.stmt.Pos(),
-		fmt.Sprintf("worker k receives from the channel appended to dec.%s and sends on the channel appended to dec.%s in the same iteration of the spawning loop (each appended exactly once, unconditionally, nowhere else)", p.in, p.out),
-		fmt.Sprintf("worker k is not wired %s[k]→%s[k]: appends per iteration in=%d out=%d (all unconditional and of channels made in the iteration: %v), other writes of the two fields=%d, the worker receives from the appended input: %v, sends on the appended output: %v", p.in, p.out, nIn, nOut, okApps, otherWrites, okRng, okSnd))
+	c02Wiring(r, p, g)
 
 	// ---- one output pair per input pair on all paths
-	c = "one-out-per-in@" + wu.name
+	c := "one-out-per-in@" + wu.name
 	var viols []c02Viol
 	nRecv := 0
 	emitSel := func(ev *pbfEvent) bool { return p.sendClause(p.selectOf(ev), p.out) != nil }
